@@ -23,7 +23,7 @@ RULE = ('accepted texts over a fixed schema x every item boundary at every depth
         'sections 10^2..10^5 deep bounds the stack. non-trivial: the inserted item is a list, call or section; distinct = (text, insertion point, item)')
 
 NAMES = ['u', 'unk', 'x_new', 'zz9', 'future.opt', 'x', 'y', 'z', 'w', 'zs',      # x/y/z are known only at other levels
-         'unk|opt', 'u=1|v', 'zz|', 'new=t|k|l']                        # names that look like paths (into nothing that is declared)
+         'unk|opt', 'u=1|v', 'zz|', 'new=t|k|l', 'sec=nosuch|x', 'one|nosuch', 'sec=nosuch', 'one|inner|nosuch']                        # names that look like paths (into nothing that is declared)
 VALS = ['1', 'abc', '"q s"', "'sq'", '3.5', 'true', '"br{ace}"', '"}"', '"{"', '"a,b"', '")"', '${VERIF_C12_UNSET:-dd}', '""']
 
 
